@@ -22,11 +22,12 @@ var c05Defs = map[string]string{
 	"@r": "{} // {additionalProperties: \"@s\"}",
 	"@t": `"t" // {type: "@s"}`,
 	"@t2": `"u" // {type: "@s"}`,
+	"@ku": `@s | @t`,
 	"@v": "{ // {allOf: \"@o\"}\n\t\"own\": 1\n}",
 	"@w": "{\n\t\"w\": @w, // {optional: true}\n\t\"u\": @s | @o\n}",
 }
-var c05Refs = map[string][]string{"@s": nil, "@o": nil, "@p": {"@s"}, "@q": {"@p"}, "@r": {"@s"}, "@t": {"@s"}, "@t2": {"@s"}, "@v": {"@o"}, "@w": {"@w", "@s", "@o"}}
-var c05All = []string{"@s", "@o", "@p", "@q", "@r", "@t", "@t2", "@v", "@w"}
+var c05Refs = map[string][]string{"@s": nil, "@o": nil, "@p": {"@s"}, "@q": {"@p"}, "@r": {"@s"}, "@t": {"@s"}, "@t2": {"@s"}, "@ku": {"@s", "@t"}, "@v": {"@o"}, "@w": {"@w", "@s", "@o"}}
+var c05All = []string{"@s", "@o", "@p", "@q", "@r", "@t", "@t2", "@ku", "@v", "@w"}
 var c05Extras = map[string]string{"@z1": `1`, "@z2": "{\n\t\"zz\": \"a\"\n}", "@z3": `1 // {or: [{type: "integer", min: 0}, {type: "boolean"}]}`}
 
 // c05Site: one reference site = a value text (single element, possibly with an
@@ -53,6 +54,7 @@ func c05Sites() []c05Site {
 		}
 	}
 	out = append(out, c05Site{Pos: "key-shortcut", Text: "{\n\t@s: 1\n}", Names: []string{"@s"}, Multi: true})
+	out = append(out, c05Site{Pos: "key-shortcut-union", Text: "{\n\t@ku: 1\n}", Names: []string{"@ku"}, Multi: true})
 	out = append(out, c05Site{Pos: "type-rule", Text: `"v"`, Ann: `{type: "@s"}`, Names: []string{"@s"}})
 	out = append(out, c05Site{Pos: "type-rule", Text: `"v"`, Ann: `{type: "@t"}`, Names: []string{"@t"}})
 	out = append(out, c05Site{Pos: "or-string-item", Text: `"v"`, Ann: `{or: ["@t", "@o"]}`, Names: []string{"@t", "@o"}})
@@ -334,7 +336,7 @@ func init() {
 	Register(&Prop{
 		ID:        "C05",
 		Technique: "bounded exhaustive enumeration of schema projects x every subset of type definitions registered or withheld x unreferenced extra types, judged by a reachability reference over the model",
-		Rule:      "roots with one or two reference sites from the 8 positions (value shortcut, @a | @b, key shortcut, type, or string item, or {type} item, allOf scalar and list, additionalProperties) at the root, in a property, in an array item; 9 closed definitions (string, object, object->string, object->object->string, and types referring onwards through additionalProperties, type, allOf, a self reference and a choice) x every subset of the reachable closure registered or withheld x {0,1,2} unreferenced valid types; thorough: all pairs and three-site roots; clauses: UsedUserTypes() = names in the root text without duplicates; 1302 naming a missing type iff a name reachable through registered definitions is unregistered; extras change no observable; non-trivial = projects outside the excluded region",
+		Rule:      "roots with one or two reference sites from the 8 positions (value shortcut, @a | @b, key shortcut, type, or string item, or {type} item, allOf scalar and list, additionalProperties) at the root, in a property, in an array item; 10 closed definitions (string, object, object->string, object->object->string, and types referring onwards through additionalProperties, type, allOf, a self reference and a choice) x every subset of the reachable closure registered or withheld x {0,1,2} unreferenced valid types; thorough: all pairs and three-site roots; clauses: UsedUserTypes() = names in the root text without duplicates; 1302 naming a missing type iff a name reachable through registered definitions is unregistered; extras change no observable; non-trivial = projects outside the excluded region",
 		Bounds: func(tier string) map[string]any {
 			return map[string]any{"sites": len(c05Sites()), "roots": len(c05Roots()), "definitions": len(c05All)}
 		},
